@@ -53,7 +53,7 @@ OBJECTS = {
     S_CHILD: [{"x": 3, "s": "c", "y": 7}, {"y": 0}],
     S_PERSON: [{"name": "Jane Doe"}, {"name": "Max Mustermann"}],
 }
-QUERY_VERSIONS = [None, (0, 1, 0), (0, 0, 1), (1, 0, 0)]
+QUERY_VERSIONS = [None, (0, 1, 0), (1, 0, 0)]
 
 _SCHEMAS_READY = False
 
@@ -179,11 +179,13 @@ def observe_container(mc) -> Dict[str, Any]:
     for n, o in pairs:
         rec("/" + n.strip("/"), o)
     groups = sorted(n for n, e in view.items() if e[0] == "G")
-    starts = ["/"] + [g for g in groups if g != "/"][:3]
+    starts = ["/"] + [g for g in groups if g != "/"][:2]
     queries = {}
     for s in SCHEMA_NAMES:
         for ver in QUERY_VERSIONS:
-            for st in starts:
+            # container level: every version form; group level (two groups): without version and
+            # with the stored one (every query is a full visit with a metadata lookup per node)
+            for st in (starts if ver is None else starts[:1] if ver != (0, 1, 0) else starts[:2]):
                 node = mc if st == "/" else mc[st]
                 try:
                     res = sorted(n.name for n in node.metador.query(s, ver))
@@ -194,16 +196,21 @@ def observe_container(mc) -> Dict[str, Any]:
     for gname in groups:
         g = mc if gname == "/" else mc[gname]
         ks = list(g.keys())
-        # reads through the group as receiver: names reported by visit / visititems are relative
-        # to it; every one of them (multi-segment relative paths) must be found by `in`, get and []
+        listings[gname] = [ks, len(g), sorted(k for k in ks if k in g)]
+        if gname not in starts:
+            continue
+        # reads through the group as receiver (root and up to three groups): names reported by
+        # visit / visititems are relative to it; they (multi-segment relative paths) must be found
+        # by `in`, get and []
         vis: List[str] = []
         g.visit(lambda n: vis.append(n) or None)
         vi: List[list] = []
         g.visititems(lambda n, o: vi.append([n, o.name, "D" if _is_ds(o) else "G"]) or None)
-        rel = [[n, n in g, getattr(g.get(n), "name", None), g[n].name] for n in vis]
-        absl = [[n, ("/" + n.strip("/")) in g] for n in list(view)[:4]]
-        listings[gname] = [ks, len(g), sorted(k for k in ks if k in g), vis, vi, rel, absl,
-                           sorted(v.name for v in g.values()), sorted([k, v.name] for k, v in g.items())]
+        deep = sorted(vis, key=lambda n: (-n.count("/"), n))[:6]
+        rel = [[n, n in g, getattr(g.get(n), "name", None), g[n].name] for n in deep]
+        absl = [[n, ("/" + n.strip("/")) in g] for n in list(view)[:3]]
+        listings[gname] += [vis, vi, rel, absl, sorted(v.name for v in g.values()),
+                            sorted([k, v.name] for k, v in g.items())]
     toc = sorted(str(r) for r in mc.metador.schemas.keys())
     # lookups that find nothing: missing names, paths leading through a dataset
     probes = {}
@@ -619,6 +626,11 @@ def container_patterns() -> List[List[list]]:
     # replace-then-touch with metadata on a group
     P.append([["set", "/", "a/old", "i:1"], ["attach", "/a", S_PERSON, 0], ["bnd"], ["del", "/", "a"], ["mkgrp", "/", "a"],
               ["set", "/", "a/new", "i:2"], ["bnd"], ["attach", "/a", S_PERSON, 1], ["bnd"], ["aset", "/", "/a", "k", "i:4"]])
+    # reopen through the container's own description of itself (metador.driver / metador.source,
+    # provider), second read-only views, after in-session patch boundaries
+    P.append([["set", "/", "a/x", "i:1"], ["attach", "/", "a", S_SIMPLE, 0], ["bnd"], ["set", "/a", "y", "i:2"], ["reopen", "src"],
+              ["set", "/", "b", "i:3"], ["peek"], ["attach", "/a", "y", S_PERSON, 0], ["bnd"], ["del", "/a", "x"], ["bnd"],
+              ["mkgrp", "/", "c/d"], ["reopen", "src"], ["peek"], ["set", "/c/d", "e", "i:4"], ["reopen"], ["reopen", "src"]])
     # create below a deleted ancestor (user level), with metadata on the old and the new nodes
     P.append([["set", "/", "a/q", "i:1"], ["attach", "/a/q", S_SIMPLE, 0], ["attach", "/a", S_CHILD, 1], ["bnd"], ["del", "/", "a"], ["bnd"],
               ["mkgrp", "/", "a/b/c"], ["set", "/", "a/b/c/d", "i:2"], ["attach", "/a/b", S_SIMPLE, 1], ["bnd"], ["set", "/a", "z", "i:3"],
@@ -1017,7 +1029,10 @@ def run(ctx: vlib.Ctx):
         prefix = targeted_prefix(rng, keys) if rng.random() < 0.4 else []
         chists.append(gen_container_history(rng, len(prefix) + rng.randint(4 if prefix else 6, ctx.budget(12 if prefix else 16, 22)), keys,
                                             rng.choice([0.0, 0.12, 0.2, 0.3]), {}, prefix=prefix))
+    import time
+    t0 = time.time()
     cres = vlib.pmap(w_container, chists)
+    t1 = time.time()
     csteps = cnontrivial = crecv = 0
     ckinds: Dict[str, int] = {}
     for h, r in zip(chists, cres):
@@ -1076,7 +1091,10 @@ def run(ctx: vlib.Ctx):
                                       "model": mtrace[i] if i < len(mtrace) else None,
                                       "impl": t[i] if i < len(t) else None})
         validated += ok
+    t2 = time.time()
     xc = vlib.coq_crosscheck("c09", mcases, mres, "c09", max_cases=ctx.budget(8, 30))
+    vlib.log(f"c09: container lock-step {t1 - t0:.1f}s, protocol lock-step + model {t2 - t1:.1f}s, crosscheck {time.time() - t2:.1f}s, "
+             f"workers {vlib.NPROC}")
 
     # ---- oracle hits: a few per (level, aspect, op kind), shrink, dedupe by signature
     groups: Dict[str, List[Dict[str, Any]]] = {}
